@@ -186,12 +186,22 @@ func (f *fnTrans) applyCall(ins ssa.Instruction, name string, ct *Contract, sig 
 				continue
 			}
 			props := cl.Props
-			if len(props) == 0 {
+			class := "pre"
+			g := And(f.here(), cs.guard)
+			if len(props) == 1 && strings.HasPrefix(props[0], "@") {
+				// a named class of library precondition (e.g. @read: storage reads in range):
+				// an obligation only where the caller claims that class, otherwise a path assumption
+				class = props[0][1:]
+				if !f.claimed[class] {
+					f.fact(g, t)
+					continue
+				}
+				props = f.safetyProps
+			} else if len(props) == 0 {
 				// untagged preconditions (mostly of library functions) are safety obligations of the caller
 				props = f.safetyProps
 			}
-			g := And(f.here(), cs.guard)
-			o := f.oblige("pre", fmt.Sprintf("precondition of %s: %s", cs.name, cl.Src), ins.Pos(), props, g, t)
+			o := f.oblige(class, fmt.Sprintf("precondition of %s: %s", cs.name, cl.Src), ins.Pos(), props, g, t)
 			o.Name = fmt.Sprintf("%s/call:%s#%d/pre%d", f.name, cs.name, ord, i)
 			f.factOb(g, t)
 		}
